@@ -163,7 +163,28 @@ def model_supported(req):
     return len(toks) >= 2 and toks[1] in MODEL_SUITES
 
 
-MODEL_SUITES = set(TOY_SUITES)
+MODEL_SUITES = set(TOY_SUITES) | {"ed25519", "ed448", "p256", "ristretto255", "secp256k1"}
+
+
+def batch_parallel(argv, lines, nproc=14):
+    """run request lines through `nproc` driver processes (round-robin, slow real-suite requests spread out)"""
+    if len(lines) < 64:
+        return batch(argv, lines)
+    from concurrent.futures import ThreadPoolExecutor
+    # real-suite requests are orders of magnitude slower than toy ones: balance them separately
+    order = sorted(range(len(lines)), key=lambda i: (lines[i].split(" ", 2)[1] in TOY_SUITES, i))
+    chunks = [order[k::nproc] for k in range(nproc)]
+    outs = [None] * len(lines)
+    def work(idx):
+        res = batch(argv, [lines[i] for i in idx])
+        if len(res) != len(idx):
+            raise RuntimeError("driver produced %d lines for %d requests" % (len(res), len(idx)))
+        return idx, res
+    with ThreadPoolExecutor(max_workers=nproc) as ex:
+        for idx, res in ex.map(work, [c for c in chunks if c]):
+            for i, r in zip(idx, res):
+                outs[i] = r
+    return outs
 
 
 def compare_with_model(records):
@@ -172,7 +193,7 @@ def compare_with_model(records):
     idx = [i for i, r in enumerate(records) if model_supported(r[0]) and r[2] != "skip"]
     if not idx:
         return 0, [], []
-    outs = batch([DRIVER_BIN], [records[i][0] for i in idx])
+    outs = batch_parallel([DRIVER_BIN], [records[i][0] for i in idx])
     if len(outs) != len(idx):
         raise RuntimeError("driver produced %d lines for %d requests" % (len(outs), len(idx)))
     dis, non = [], []
